@@ -532,5 +532,10 @@ mod kani_c06 {
         }
     }
 
+    #[kani::proof] #[kani::unwind(8)]
+    fn c06_tcpx_000() { tcp_rt(false, false, false, false, 0); }
+    #[kani::proof] #[kani::unwind(8)]
+    fn c06_tcpx_111() { tcp_rt(true, true, true, false, 0); }
+
     // ==== END kani_c06 ====
 }
